@@ -20,7 +20,7 @@ def tcode(s):
 
 TC = dict(BOOL=tcode(b"BOOL"), DBLE=tcode(b"DBLE"), FLOT=tcode(b"FLOT"), LLNG=tcode(b"LLNG"), LONG=tcode(b"LONG"),
           SHRT=tcode(b"SHRT"), BYTE=tcode(b"BYTE"), MSGG=tcode(b"MSGG"), PNTR=tcode(b"PNTR"), BPNT=tcode(b"BPNT"),
-          RECT=tcode(b"RECT"), CSTR=tcode(b"CSTR"), RAWT=tcode(b"RAWT"), TAGT=tcode(b"TAGT"), ANYT=tcode(b"ANYT"))
+          RECT=tcode(b"RECT"), CSTR=tcode(b"CSTR"), RAWT=tcode(b"RAWT"), TAGT=tcode(b"MTAG"), ANYT=tcode(b"ANYT"))
 FIXED = {"BOOL": 1, "DBLE": 8, "FLOT": 4, "LLNG": 8, "LONG": 4, "SHRT": 2, "BYTE": 1, "BPNT": 8, "RECT": 16}
 
 
@@ -568,6 +568,10 @@ class CHECK(vlib.Check):
                 add("directed-ptrtag", "msg|" + (w32(PM) + w32(0) + w32(1) + w32(2) + b"p\0" + w32(tc) + w32(len(payload)) + payload).hex())
         # bool array holding bytes other than 0/1
         add("directed-bool", "msg|" + (w32(PM) + w32(0) + w32(1) + w32(2) + b"b\0" + w32(TC["BOOL"]) + w32(3) + b"\x01\xff\x02").hex())
+        # the MicroMessage cases run in a forked child each (see the harness); keep an evenly spread sample of them
+        micro = [i for i, (st, c) in enumerate(out) if c.startswith("micro")]
+        keep = set(micro[:: max(1, len(micro) // (50 if not big else 600))])
+        out = [x for i, x in enumerate(out) if not x[1].startswith("micro") or i in keep]
         return out
 
     def nontrivial(self, case):
